@@ -258,7 +258,11 @@ func genParserInput(t *rapid.T, ep string) ParserInput {
 			v = "x"
 		}
 		sep := rapid.SampledFrom([]string{"", "\n", "\n\n", ", ", " "}).Draw(t, "bigsep")
-		n := rapid.IntRange(2, 1+65536/(len(v)+len(sep))).Draw(t, "bign")
+		hi := 1 + 65536/(len(v)+len(sep))
+		if hi < 2 {
+			hi = 2 // one valid input can be 64 KiB long by itself (a control file with a very long description)
+		}
+		n := rapid.IntRange(2, hi).Draw(t, "bign")
 		if n > 4000 {
 			n = 4000
 		}
